@@ -155,6 +155,82 @@ let run_spec_stream c =
       (int_of_n si.si_channels) (int_of_n si.si_bps) (int_of_n si.si_rate) (List.length frames) (json_ints (List.concat inter))
   | r -> Printf.sprintf "{\"end\":\"%s\"}" (res_name r)
 
+
+(* ---- the encoder model against the implementation's own output (kind enc_stream) ----
+   input: a file the encoder produced ("bytes"), the interleaved PCM it was given ("expect") and the
+   options ("cfg": bs, po, mid_side, fast, lpc).  For every block the model encoder (Enc.enc_frame,
+   LPC oracle = the parameters found in the implementation's LPC subframes) must reproduce the
+   frame bytes; where the oracle cannot know an unchosen candidate (exhaustive stereo with LPC) each
+   subframe must still be what Enc.enc_sub produces for the channel signal the header announces. *)
+let rec take n l = if n = 0 then [] else match l with [] -> [] | x :: t -> x :: take (n - 1) t
+let rec drop n l = if n = 0 then l else match l with [] -> [] | _ :: t -> drop (n - 1) t
+let run_enc_stream c =
+  let bytes = bytes_of_hex (str_field c "bytes") in
+  let cfg = field c "cfg" in
+  let expect = ints_of (field c "expect") in
+  match read_metadata_min bytes with
+  | None -> "{\"end\":\"badmeta\"}"
+  | Some (si, audio) ->
+    let ch = int_of_n si.si_channels and bps = si.si_bps and rate = si.si_rate in
+    let bs = int_field cfg "bs" 4096 in
+    let o = { eo_max_po = n_of_int (int_field cfg "po" 5);
+              eo_mid_side = (field cfg "mid_side" = JBool true);
+              eo_exhaustive = not (field cfg "fast" = JBool true);
+              eo_rice2 = int_of_n bps > 16 } in
+    let lpc_on = (field cfg "lpc" <> JNull) in
+    let frames = ref 0 and fmatch = ref 0 and smatch = ref 0 and first = ref "" in
+    let note k what model actual =
+      if !first = "" then first := Printf.sprintf ",\"first_mismatch\":{\"frame\":%d,\"what\":\"%s\",\"model\":\"%s\",\"actual\":\"%s\"}" k what model actual in
+    let rec loop k pcm audio =
+      if pcm = [] then (if audio <> [] then note k "bytes-left-after-last-block" "" (hex_of_bytes (take 64 audio)))
+      else begin
+        let n = min bs (List.length pcm / ch) in
+        let block = take (n * ch) pcm in
+        let chans = List.init ch (fun ci -> List.filteri (fun i _ -> i mod ch = ci) block |> List.map z_of_int) in
+        incr frames;
+        match struct_frame (Some si) audio with
+        | Ok (fa, rest) ->
+          let actual = take (List.length audio - List.length rest) audio in
+          let a = fa.f_hdr.h_assign in
+          let lpcs = List.concat (List.mapi (fun i sf ->
+              match sf.sf_body with
+              | BLpc (order, _, prec, shift, coefs, _) ->
+                let eb = int_of_n (subframe_bps a bps (nat_of_int i)) - int_of_n sf.sf_wasted in
+                [((eb, sem_body fa.f_hdr.h_bs sf.sf_body), (((order, prec), shift), coefs))]
+              | _ -> []) fa.f_subs) in
+          let l = if lpc_on then Some (fun eb ys -> List.assoc_opt (int_of_n eb, ys) lpcs) else None in
+          let model = enc_frame_bytes o l rate bps (n_of_int k) chans in
+          if model = Some actual then (incr fmatch; incr smatch)
+          else begin
+            (* per subframe, for the channel signals of the announced assignment *)
+            let ai = int_of_n a in
+            let signals =
+              (match ai, chans with
+               | 8, [lc; rc] -> [lc; side_of lc rc]
+               | 9, [lc; rc] -> [side_of lc rc; rc]
+               | 10, [lc; rc] -> [mid_of lc rc; side_of lc rc]
+               | _ -> chans) in
+            let ok = ref (List.length signals = List.length fa.f_subs) in
+            if !ok then List.iteri (fun i (xs, sf) ->
+                let b = subframe_bps a bps (nat_of_int i) in
+                let m = enc_sub o l b xs in
+                if m <> sf then begin
+                  ok := false;
+                  let hexbits bl = String.concat "" (List.map (fun x -> if x then "1" else "0") bl) in
+                  note k (Printf.sprintf "subframe %d" i) (hexbits (take 400 (write_subframe b m))) (hexbits (take 400 (write_subframe b sf)))
+                end) (List.combine signals fa.f_subs);
+            if !ok then incr smatch;
+            let exh_stereo_lpc = lpc_on && o.eo_exhaustive && ch = 2 in
+            if not (exh_stereo_lpc && !ok) then
+              note k "frame" (match model with Some b -> hex_of_bytes (take 300 b) | None -> "none") (hex_of_bytes (take 300 actual))
+          end;
+          loop (k + 1) (drop (n * ch) pcm) rest
+        | r -> note k ("actual-frame-unparsable:" ^ res_name r) "" ""
+      end in
+    loop 0 expect audio;
+    Printf.sprintf "{\"end\":\"ok\",\"frames\":%d,\"frame_match\":%d,\"subs_match\":%d,\"lpc\":%b,\"exhaustive_stereo\":%b%s}"
+      !frames !fmatch !smatch lpc_on (o.eo_exhaustive && ch = 2) !first
+
 (* ---- generator of valid streams (C03): one output line per generated stream ---- *)
 let run_gen c =
   let open Codec_gen in
@@ -243,6 +319,7 @@ let () =
              | "dec_subset" -> run_dec_subset c
              | "struct" -> run_struct c
              | "spec_stream" -> run_spec_stream c
+             | "enc_stream" -> run_enc_stream c
              | "gen" -> run_gen c
              | k -> Printf.sprintf "{\"end\":\"unknown-kind:%s\"}" k)
           with
